@@ -1,22 +1,17 @@
 #!/bin/bash
-# evaluate the seeded changes (scratch worktrees under /tmp) with the checks of THIS tree (a vp-run snapshot),
-# so that the shared /verif/coq build is not disturbed; results go to /verif/seeded/<name>/ and /verif/build/seed_*.out
+# evaluate seeded changes (scratch worktrees under /tmp) with the checks of THIS tree (a vp-run snapshot)
 cd "$(dirname "$0")/.."
 mkdir -p /verif/build
 run() { python3 tools/seed_eval.py "$@" > /verif/build/seed_$2.out 2>&1; }
-run /tmp/wt4 C09-gbs-skipped-in-static-volume-regimes C09 C01 C07
-run /tmp/wt14 C15-zero-volume-slice-offset C15
-run /tmp/wt16 C19-falsy-values-replaced-by-defaults C19
-run /tmp/wt15 C17-sanitised-postfix-collisions C17
+run /tmp/wt21 C01b-rigid-rotation-term-transposed C01 C06 C07
+run /tmp/wt22 C02b-zero-volume-grains-skipped C02 C03
+run /tmp/wt23 C03b-yielding-smoothing-about-arithmetic-mean C03 C02
+run /tmp/wt24 C06b-inplace-division-aliases-caller-L C06 C05 C01
+run /tmp/wt25 C07b-get-regime-applied-one-step-late C07 C01
+run /tmp/wt26 C09b-gbs-reference-taken-per-solver-step C09 C01
+run /tmp/wt17 C12-pairing-sign-from-wrong-eigenvector C12
 run /tmp/wt11 C06-zero-strain-rate-freezes-F C06 C07 C01
+run /tmp/wt4 C09-gbs-skipped-in-static-volume-regimes C09 C01 C07
 run /tmp/wt13 C10-cached-stiffness-tensors C10
-run /tmp/wt12 C07-stale-rhs-buffer-after-flow-stops C07 C06
 run /tmp/wt9 C01-seed-zero-not-reproducible C01
-run /tmp/wt10 C05-allclose-memo-not-scale-free C05
-run /tmp/wt1 C02-yielding-energy-damped-twice C02 C03
-run /tmp/wt7 C13-diagonal-scatter-shortcut C13
-run /tmp/wt6 C11-rotate-identity-fastpath C11 C10
-run /tmp/wt8 C16-bool-in-integer-column C16
-run /tmp/wt20 C20-schmidt-count-not-folded C20
-# later seeds (C12, C14, C18) are appended by hand when their worktrees are ready
-echo ALLDONE > /verif/build/seed_queue.done
+echo ALLDONE > /verif/build/seed_queue2.done
